@@ -91,5 +91,15 @@ pub fn generate(thorough: bool, seed: u64, em: &mut Emitter) {
         case["issuer_decoded"] = json!(super::present::decoded_segments(&format!("{}~", token.split('~').next().unwrap())));
         case["nontrivial"] = json!(redact.iter().any(|x| marks.iter().any(|m| gen::render(m) == *x)));
         em.case("present", case);
+        if i % 10 == 3 {
+            // the same Issuer object signs several credentials: every one of them, not only the first, must hide
+            // the disclosable claims (the issue kind reproduces each token from its read-back draws and checks
+            // the round trip with the marked paths)
+            let calls = 2 + r.below(2);
+            let mut c = super::c01::issue_case(&claims, &marks, if r.chance(1, 3) { Some(3) } else { None }, false, "HS256", calls);
+            c["nontrivial"] = json!(true);
+            c["tag"] = json!("repeated_encode");
+            em.case("issue", c);
+        }
     }
 }
